@@ -240,7 +240,7 @@ var spell = map[string][]string{
 // words a directive's setup compares argument VALUES with (not sub-directive keywords): half of
 // the "wd" tokens of such a directive are drawn from here, so that the deeper branches are reached
 var dict = map[string][]string{
-	"basicauth":  {"htpasswd=missing.htpasswd", "htpasswd=@SCRATCH@/exist.txt", "htpasswd=@SCRATCH@/htpasswd", "bob"},
+	"basicauth":  {"htpasswd=missing.htpasswd", "htpasswd=exist.txt", "htpasswd=htpasswd", "htpasswd=@SCRATCH@/exist.txt", "bob"},
 	"errors":     {"visible", "stdout", "stderr", "syslog", "404", "500", "*"},
 	"log":        {"stdout", "stderr", "syslog", "{combined}", "{common}", "255.255.255.0", "ffff::"},
 	"tls":        {"off", "self_signed", "tls1.2", "tls1.3", "tls1.0", "p256", "rsa2048", "x25519", "p384", "ECDHE-RSA-AES128-GCM-SHA256", "h2", "request", "require", "me@example.com", "@SCRATCH@/cert.pem", "@SCRATCH@/key.pem"},
@@ -298,7 +298,13 @@ func spellFor(d string, cls string, pos int, rnd *rand.Rand) string {
 // and the canonical, spelling-free name of the case.
 func render(c *sgCase, rnd *rand.Rand) (text, name string) {
 	var b, n strings.Builder
-	b.WriteString("127.0.0.1:@PORT@ {\n\tbind 127.0.0.1\n\t" + c.D)
+	if c.D == "basicauth" {
+		// htpasswd= names are relative to the site root: with the scratch directory as root the
+		// vocabulary reaches a well-formed, a malformed and a missing password file
+		b.WriteString("127.0.0.1:@PORT@ {\n\tbind 127.0.0.1\n\troot @SCRATCH@\n\t" + c.D)
+	} else {
+		b.WriteString("127.0.0.1:@PORT@ {\n\tbind 127.0.0.1\n\t" + c.D)
+	}
 	n.WriteString(c.D)
 	extra := 0
 	tok := func(cls string, pos int) {
